@@ -457,6 +457,10 @@ func c06Bottom(c *eng.Ctx, r *eng.Report) {
 				if m, isM := cd.Cmp(); isM && m.Via == "Cmp" && (m.Op == token.GEQ) && (m.X == call.Call.Args[1] || eng.Desc(m.X) == eng.Desc(call.Call.Args[1])) && m.Y == call.Call.Args[2] {
 					guard = true
 				}
+				// mirrored: amount.Cmp(remain) <= 0
+				if m, isM := cd.Cmp(); isM && m.Via == "Cmp" && (m.Op == token.LEQ) && (m.Y == call.Call.Args[1] || eng.Desc(m.Y) == eng.Desc(call.Call.Args[1])) && m.X == call.Call.Args[2] {
+					guard = true
+				}
 			}
 			ok = ok && guard
 		}
